@@ -42,6 +42,8 @@ package privval
 //@   sets pSig = lss.Signature when true
 //@   sets pSB = lss.SignBytes when true
 //@   atcall WriteFileAtomic path: arg0 == lss.filePath && lss.filePath != ""
+//@   atcall WriteFileAtomic bytes: arg1 == jsonBytes && err == nil
+//@   ensures written: fsPhase == 4
 
 //@ func FilePV.saveSigned
 //@   assigns pv.LastSignState.Height, pv.LastSignState.Round, pv.LastSignState.Step, pv.LastSignState.Signature, pv.LastSignState.SignBytes, pH, pR, pS, pSig, pSB, fsPhase, tempfile.atomicWriteFileRand
